@@ -477,7 +477,10 @@ def canon_tokens(tokens):
     return [(t[0], t[1], t[2], MO_TEXT_ROW.get(t[3], t[3])) if t[0] == "mo" else t for t in tokens]
 
 
-def classify_plain(tokens, d):
+CAPS = ["N", "K", "C", "S", "P", "H", "O", "B", "F", "I", "U", "V", "W", "Y"]
+
+
+def classify_plain(tokens, d, idents=None):
     """tokens: leaf trees.  Returns (items, why_not): items = [(kind, text, prio, form)] with kind in
     atom/pre/post/in/lf/rf (implied operators included, marked by text U+2061/U+2062), or None when the row is outside
     the plain fragment; 'kf:...' in why_not marks a known-finding class."""
@@ -494,7 +497,7 @@ def classify_plain(tokens, d):
                 items.append(("in", "⁡", d.forms["⁡"]["infix"][0], "infix"))
             else:
                 items.append(("in", "⁢", d.forms["⁢"]["infix"][0], "infix"))
-        if tag == "mi" and text not in PLAIN_IDENTS:
+        if tag == "mi" and text not in (idents or PLAIN_IDENTS):
             return None, "identifier outside the plain alphabet"
         if tag in ("mi", "mn"):
             if not want:
@@ -821,7 +824,21 @@ def oracle(res, d, plain, obs, n_mixed):
     # B: the whole pipeline: plain rows that clean-up leaves alone, and function-application rows
     rng = random.Random(res.seed * 31 + 5)
     g = PlainGen(rng, d)
-    rows = [g.expr(2, rng.randint(1, 5)) for _ in range(400 if res.tier == "quick" else 4000)] + FN_ROWS
+    # rows whose operands are capital letters that are also element symbols, with operators that can be bonds: looked at as
+    # chemistry first, parsed again when they are not
+    caps = CAPS
+    bonds = ["-", "⋅", ":", "≡", "=", "+", "×", "<"]
+    chem_like = []
+    for _ in range(60 if res.tier == "quick" else 600):
+        r = []
+        for i in range(rng.randint(2, 4)):
+            if i:
+                r.append(mo(rng.choice(bonds)))
+            r.append(mi(rng.choice(caps)) if rng.random() < 0.7 else mn(rng.choice(["1", "2", "12"])))
+        chem_like.append(r)
+    chem_like += [[mi("N"), mo("-"), mi("K"), mo("⋅"), mn("2")], [mi("N"), mo("≡"), mi("C"), mo("-"), mn("1")], [mi("S"), mo(":"), mi("N"), mo("-"), mn("1")],
+                  [mn("280"), mo("-"), mi("K"), mo("⋅"), mn("390")]]
+    rows = [g.expr(2, rng.randint(1, 5)) for _ in range(400 if res.tier == "quick" else 4000)] + FN_ROWS + chem_like
     sess = [{"id": k, "ops": [["set_rules_dir", C.RULES], ["v_canon_stage", to_xml(T("math", [row(*r)])), "clean"],
                               ["set_mathml", to_xml(T("math", [row(*r)]))]]} for k, r in enumerate(rows)]
     out = C.run_harness(sess)
@@ -842,7 +859,9 @@ def oracle(res, d, plain, obs, n_mixed):
         toks = flatten_leaves(from_xml(a["ok"]))
         if toks is None:
             continue
-        items, why = classify_plain(canon_tokens(toks), d)
+        if "data-chem" in o["ok"] or "chemical" in o["ok"]:
+            continue          # taken for chemistry: its own structure
+        items, why = classify_plain(canon_tokens(toks), d, idents=PLAIN_IDENTS + CAPS)
         if items is None:
             if why and why.startswith("kf:"):
                 res.extra["known_class_rows"] = res.extra.get("known_class_rows", 0) + 1
